@@ -17,10 +17,13 @@ import CifModel.Props.C12Lex
   The class theorems are used through their statements only (the wrappers `block_defect_chars`, `items_class` take the statement of
   the class theorem as a hypothesis).
 
-  NOT here yet: the LINE of the report.  The token-level statements describe the state at which the report is made by the tokens
-  it still feeds, which does not fix its line; once they expose the walk (`Reach`, Lemmas/ParserReach) the line follows from
-  `reach_line` / `reach_line_pending` and `posTok_snoc` of Lemmas/DefectChars: `posAfter 1 0` over the characters up to the end of
-  the token at which the parser notices the defect.
+  The LINE of the report (`OneReportAt … j`), for the classes whose token-level theorem exposes the position of the report
+  (`RepAt`, Lemmas/ParserDefect — the `_at` forms): the report is made `j` tokens into the text, so its line is `endLine cs j` — the
+  line on which the `j`-th token of the text ends, `(posAfter 1 0 (characters up to and including that token)).1` — or
+  `endLine cs (j+1)`, the line on which the next token ends (the end of the text if there is none): `repAt_line` of
+  Lemmas/DefectChars, from `Reach.det` and the walk over accepted chunks (`reach_chunks`, `reach_end`).  (`RepAt` does not say
+  whether the next token had already been scanned when the report was made, hence the two lines; they coincide when both tokens
+  end on the same line.)  Classes without an `_at` form yet conclude `OneReport` (no line).
 -/
 namespace CifModel.Props
 open CifModel CifModel.Model CifModel.Model.Lexer CifModel.Model.Parser CifModel.Spec.Lexical CifModel.Spec.Grammar
@@ -53,6 +56,17 @@ structure ItemHost (o : Opts) (cs : List Chunk) (preB postB : List Block) (bc : 
 /-- the outcome: CIF_OK, exactly one report, its code, the content of the repaired document -/
 def OneReport (o : Opts) (cs : List Chunk) (C : Code) (repaired : Doc) : Prop :=
   ∃ r, parse o acceptAll [] (renderChunks cs) = { rc := 0, log := [r], cif := denote o.dia o.normKey repaired } ∧ r.code = C
+
+/-- … and WHERE: the report is made `j` tokens into the text — its line is the line on which the `j`-th token of the text ends
+    (`endLine cs j` = `(posAfter 1 0 (characters up to and including that token)).1`, Lemmas/DefectChars) or the line on which the
+    next token ends (the end of the text if there is none) -/
+def OneReportAt (o : Opts) (cs : List Chunk) (C : Code) (repaired : Doc) (j : Nat) : Prop :=
+  ∃ r, parse o acceptAll [] (renderChunks cs) = { rc := 0, log := [r], cif := denote o.dia o.normKey repaired } ∧ r.code = C
+    ∧ (r.line = endLine cs j ∨ r.line = endLine cs (j + 1))
+
+theorem OneReportAt.one {o : Opts} {cs : List Chunk} {C : Code} {d : Doc} {j : Nat} (h : OneReportAt o cs C d j) : OneReport o cs C d := by
+  obtain ⟨r, h1, h2, _⟩ := h
+  exact ⟨r, h1, h2⟩
 
 /-- a block whose body consists of items and loops only -/
 def plainBlock (code : Str) (its : List Item) : Block := { code := code, body := its.map .plain }
@@ -108,7 +122,8 @@ theorem szEntries_len : ∀ (es : List (Str × Presentation × Val)), 2 * es.len
 /-- `hstep` is the statement of the class theorem for the view of the block (`K`: what it asks of the fuel for `D`); `ls'`: the loops
     the class theorem leaves in the block.  The container is pruned of empty loops when it ends (`pruneC`). -/
 theorem items_class {o : Opts} {cs : List Chunk} {preB postB : List Block} {bc : Str} {pre post : List Item} {D : List TokSpec}
-    (H : ItemHost o cs preB postB bc pre post D) (ls' : List Loop) (C : Code) (K : Nat) (hK : K ≤ 2 * D.length + 18)
+    (H : ItemHost o cs preB postB bc pre post D) (ls' : List Loop) (C : Code) (K : Nat) (Q : PS → Report → Prop)
+    (hK : K ≤ 2 * D.length + 18)
     (hstep : View o [o.norm bc] (fun x => denote o.dia o.normKey preB ++ [x]) bc →
         ∀ (rest : List TokSpec) (s1 : PS) (w1 : W) (f : Nat), w1.cif = denote o.dia o.normKey preB ++ [.mk bc [] []] →
         szItems pre + szItems post + K + 1 ≤ f → blockFollow rest →
@@ -116,11 +131,12 @@ theorem items_class {o : Opts} {cs : List Chunk} {preB postB : List Block} {bc :
         ∃ s2 r, elemsLoop o (f + post.length + 1 + pre.length) s1 (some [o.norm bc]) true acceptAll w1
             = elemsLoop o f s2 (some [o.norm bc]) true acceptAll
                 { log := r :: w1.log, cif := denote o.dia o.normKey preB ++ [.mk bc [] ls'] }
-          ∧ r.code = C ∧ Feeds o s2 rest) :
+          ∧ r.code = C ∧ Feeds o s2 rest ∧ Q s1 r) :
     ∃ r, parse o acceptAll [] (renderChunks cs)
         = { rc := 0, log := [r],
             cif := denote o.dia o.normKey preB ++ pruneC (.mk bc [] ls') :: denote o.dia o.normKey postB }
-      ∧ r.code = C := by
+      ∧ r.code = C
+      ∧ ∃ s1, At o { scan := Scan.init (renderChunks cs), tok := none } ((blocksToks preB).length + 1) s1 ∧ Q s1 r := by
   obtain ⟨c, rest, hc, hfirst, hbom⟩ := H.first
   have hsz1 := (Lemmas.WriterChunks.szItems_toks pre)
   have hsz2 := (Lemmas.WriterChunks.szItems_toks post)
@@ -130,7 +146,7 @@ theorem items_class {o : Opts} {cs : List Chunk} {preB postB : List Block} {bc :
     simp only [codeIs, hcb, beq_eq_false_iff_ne, ne_eq]
     exact H.fresh b hb)
   refine block_defect_chars o H.store H.mfd H.utf cs c rest preB postB bc (itemsToks pre ++ (D ++ itemsToks post)) [] ls' C
-    (post.length + 1 + pre.length) (szItems pre + szItems post + K + 1) _ H.ok H.fit hc hfirst hbom H.hToks H.wfPreB H.wfBc H.fresh
+    (post.length + 1 + pre.length) (szItems pre + szItems post + K + 1) _ Q H.ok H.fit hc hfirst hbom H.hToks H.wfPreB H.wfBc H.fresh
     H.wfPostB (fun b hb => List.mem_cons_of_mem _ (List.mem_map.mpr ⟨b, hb, rfl⟩)) List.mem_cons_self
     (by simp only [List.length_append]; omega) ?_
   intro s1 w1 f hw1 hf hF1
@@ -150,8 +166,39 @@ theorem items_class_doc {o : Opts} {cs : List Chunk} {preB postB : List Block} {
                 { log := r :: w1.log, cif := denote o.dia o.normKey preB ++ [.mk bc [] (denoteItems o.dia o.normKey its [])] }
           ∧ r.code = C ∧ Feeds o s2 rest) :
     OneReport o cs C (preB ++ [plainBlock bc its] ++ postB) := by
-  obtain ⟨r, h, hr⟩ := items_class H _ C K hK hstep
+  obtain ⟨r, h, hr, _⟩ := items_class H _ C K (fun _ _ => True) hK (fun hv rest s1 w1 f a b c d => by
+    obtain ⟨s2, r, h1, h2, h3⟩ := hstep hv rest s1 w1 f a b c d
+    exact ⟨s2, r, h1, h2, h3, trivial⟩)
   exact ⟨r, by rw [h, denote_plain, pruneC_packed _ _ _ hpk], hr⟩
+
+/-- the line of the report from its position in the block: `j` tokens behind the block header -/
+theorem line_of_block {o : Opts} {cs : List Chunk} (H : TextOk o cs) {n j : Nat} {r : Report} (hj : n + j ≤ (toks cs).length)
+    (h : ∃ s1, At o { scan := Scan.init (renderChunks cs), tok := none } n s1 ∧ RepAt o s1 j r) :
+    r.line = endLine cs (n + j) ∨ r.line = endLine cs (n + j + 1) := by
+  obtain ⟨s1, hat, hrep⟩ := h
+  exact repAt_line o cs H.ok H.fit hj (RepAt.shift hat hrep)
+
+/-- … with the position of the report: `hstep` is the `_at` form of the class theorem, `j` its token count from the first token
+    of the run `pre` -/
+theorem items_class_doc_at {o : Opts} {cs : List Chunk} {preB postB : List Block} {bc : Str} {pre post : List Item} {D : List TokSpec}
+    (H : ItemHost o cs preB postB bc pre post D) (its : List Item) (C : Code) (K j : Nat) (hK : K ≤ 2 * D.length + 18)
+    (hj : j ≤ (itemsToks pre).length + D.length)
+    (hpk : allPacked (denoteItems o.dia o.normKey its []))
+    (hstep : View o [o.norm bc] (fun x => denote o.dia o.normKey preB ++ [x]) bc →
+        ∀ (rest : List TokSpec) (s1 : PS) (w1 : W) (f : Nat), w1.cif = denote o.dia o.normKey preB ++ [.mk bc [] []] →
+        szItems pre + szItems post + K + 1 ≤ f → blockFollow rest →
+        Feeds o s1 (itemsToks pre ++ (D ++ (itemsToks post ++ rest))) →
+        ∃ s2 r, elemsLoop o (f + post.length + 1 + pre.length) s1 (some [o.norm bc]) true acceptAll w1
+            = elemsLoop o f s2 (some [o.norm bc]) true acceptAll
+                { log := r :: w1.log, cif := denote o.dia o.normKey preB ++ [.mk bc [] (denoteItems o.dia o.normKey its [])] }
+          ∧ r.code = C ∧ Feeds o s2 rest ∧ RepAt o s1 j r) :
+    OneReportAt o cs C (preB ++ [plainBlock bc its] ++ postB) ((blocksToks preB).length + 1 + j) := by
+  obtain ⟨r, h, hr, hat⟩ := items_class H _ C K (fun s1 r => RepAt o s1 j r) hK hstep
+  refine ⟨r, by rw [h, denote_plain, pruneC_packed _ _ _ hpk], hr, ?_⟩
+  refine line_of_block H.toTextOk ?_ hat
+  rw [H.hToks]
+  simp only [List.length_append, List.length_cons]
+  omega
 
 theorem nil_seen (o : Opts) : ∀ k ∈ normNames o [], k ∈ ([] : List Str) := by
   intro k hk; simp [normNames] at hk
@@ -165,13 +212,16 @@ theorem C12_chars_missing_value (o : Opts) (cs : List Chunk) (preB postB : List 
     (hname : wfName n = true) (hfresh : o.norm n ∉ normNames o (denoteItems o.dia o.normKey pre []))
     (hpost : wfItems o post seen2 = true)
     (hseen2 : ∀ k ∈ normNames o (denoteItems o.dia o.normKey (pre ++ [.item n .unk]) []), k ∈ seen2) :
-    OneReport o cs CIF_MISSING_VALUE (preB ++ [plainBlock bc (pre ++ [.item n .unk] ++ post)] ++ postB) :=
-  items_class_doc H _ CIF_MISSING_VALUE 0 (by simp)
-    (allPacked_run o pre post _ seen2 H.wfRun hpost (allPacked_item o n .unk))
-    (fun hv rest1 s1 w1 f hw1 hf hfol hF1 =>
-      have hterm := blockFollow_term hfol
-      C12_missing_value o hv pre post n [] seen2 rest1 s1 f w1 [] [] true hw1 H.wfRun (nil_seen o)
-        hname hfresh hpost hseen2 (by omega) (Or.inr hterm) (fun _ => hterm) (by simpa using hF1))
+    OneReportAt o cs CIF_MISSING_VALUE
+      (preB ++ [plainBlock bc (pre ++ [.item n .unk] ++ post)] ++ postB)
+      ((blocksToks preB).length + 1 + ((itemsToks pre).length + 1)) := by
+  refine items_class_doc_at H _ CIF_MISSING_VALUE 0 _ (by simp) (by simp)
+    (allPacked_run o pre post _ seen2 H.wfRun hpost (allPacked_item o n .unk)) ?_
+  intro hv rest1 s1 w1 f hw1 hf hfol hF1
+  have hterm := blockFollow_term hfol
+  obtain ⟨s2, r, h1, h2, h3, h4, _⟩ := C12_missing_value_at o hv pre post n [] seen2 rest1 s1 f w1 [] [] true hw1 H.wfRun (nil_seen o)
+    hname hfresh hpost hseen2 (by omega) (Or.inr hterm) (fun _ => hterm) (by simpa using hF1)
+  exact ⟨s2, r, h1, h2, h3, h4⟩
 
 /-- **C12_chars_unexpected_value** — a value (of any kind and depth) where an item is expected, not directly behind a loop.  One
     report, CIF_UNEXPECTED_VALUE; the content is that of the document without the value. -/
@@ -179,13 +229,17 @@ theorem C12_chars_unexpected_value (o : Opts) (cs : List Chunk) (preB postB : Li
     (seen2 : List Str) (H : ItemHost o cs preB postB bc pre post (valToks v))
     (hnoloop : lastIsLoop pre = false) (hwv : wfVal o v = true) (hpost : wfItems o post seen2 = true)
     (hseen2 : ∀ k ∈ normNames o (denoteItems o.dia o.normKey pre []), k ∈ seen2) :
-    OneReport o cs CIF_UNEXPECTED_VALUE (preB ++ [plainBlock bc (pre ++ post)] ++ postB) :=
-  items_class_doc H _ CIF_UNEXPECTED_VALUE (szVal v) (by rw [Lemmas.WriterChunks.szVal_toks]; omega)
-    (by simpa using allPacked_run o pre post [] seen2 H.wfRun hpost (fun _ h => h))
-    (fun hv rest1 s1 w1 f hw1 hf hfol hF1 =>
-      have hterm := blockFollow_term hfol
-      C12_unexpected_value o hv pre post v [] seen2 rest1 s1 f w1 [] [] true hw1 H.wfRun (nil_seen o) hnoloop hwv hpost hseen2
-        (by omega) (fun _ => hterm) hF1)
+    OneReportAt o cs CIF_UNEXPECTED_VALUE
+      (preB ++ [plainBlock bc (pre ++ post)] ++ postB)
+      ((blocksToks preB).length + 1 + ((itemsToks pre).length + 0)) := by
+  have hv1 := szVal_pos v
+  refine items_class_doc_at H _ CIF_UNEXPECTED_VALUE (szVal v) _ (by rw [Lemmas.WriterChunks.szVal_toks]; omega) (by omega)
+    (by simpa using allPacked_run o pre post [] seen2 H.wfRun hpost (fun _ h => h)) ?_
+  intro hv rest1 s1 w1 f hw1 hf hfol hF1
+  have hterm := blockFollow_term hfol
+  obtain ⟨s2, r, h1, h2, h3, h4, _⟩ := C12_unexpected_value_at o hv pre post v [] seen2 rest1 s1 f w1 [] [] true hw1 H.wfRun (nil_seen o)
+    hnoloop hwv hpost hseen2 (by omega) (fun _ => hterm) hF1
+  exact ⟨s2, r, h1, h2, h3, h4⟩
 
 /-- **C12_chars_dup_itemname** — a data name whose normalised form is already defined in the block (as a scalar or in a loop, in any
     spelling), with its value.  One report, CIF_DUP_ITEMNAME; the content is that of the document without the second item. -/
@@ -194,14 +248,17 @@ theorem C12_chars_dup_itemname (o : Opts) (cs : List Chunk) (preB postB : List B
     (hname : wfName n = true) (hdup : o.norm n ∈ normNames o (denoteItems o.dia o.normKey pre []))
     (hwv : wfVal o v = true) (hpost : wfItems o post seen2 = true)
     (hseen2 : ∀ k ∈ normNames o (denoteItems o.dia o.normKey pre []), k ∈ seen2) :
-    OneReport o cs CIF_DUP_ITEMNAME (preB ++ [plainBlock bc (pre ++ post)] ++ postB) :=
-  items_class_doc H _ CIF_DUP_ITEMNAME (szVal v) (by rw [Lemmas.WriterChunks.szVal_toks]; simp only [List.length_cons]; omega)
-    (by simpa using allPacked_run o pre post [] seen2 H.wfRun hpost (fun _ h => h))
-    (fun hv rest1 s1 w1 f hw1 hf hfol hF1 =>
-      have hterm := blockFollow_term hfol
-      C12_dup_itemname o hv pre post n v [] seen2 rest1 s1 f w1 [] [] true hw1 H.wfRun (nil_seen o) hname hdup hwv hpost hseen2
-        (by omega) (fun _ => hterm) hF1)
-
+    OneReportAt o cs CIF_DUP_ITEMNAME
+      (preB ++ [plainBlock bc (pre ++ post)] ++ postB)
+      ((blocksToks preB).length + 1 + ((itemsToks pre).length + 1)) := by
+  refine items_class_doc_at H _ CIF_DUP_ITEMNAME (szVal v) _
+    (by rw [Lemmas.WriterChunks.szVal_toks]; simp only [List.length_cons]; omega) (by simp only [List.length_cons]; omega)
+    (by simpa using allPacked_run o pre post [] seen2 H.wfRun hpost (fun _ h => h)) ?_
+  intro hv rest1 s1 w1 f hw1 hf hfol hF1
+  have hterm := blockFollow_term hfol
+  obtain ⟨s2, r, h1, h2, h3, h4, _⟩ := C12_dup_itemname_at o hv pre post n v [] seen2 rest1 s1 f w1 [] [] true hw1 H.wfRun (nil_seen o)
+    hname hdup hwv hpost hseen2 (by omega) (fun _ => hterm) hF1
+  exact ⟨s2, r, h1, h2, h3, h4⟩
 
 theorem denoteVals_eq_map (dia : Dialect) (nk : Str → Str) : ∀ (vs : List Val), denoteVals dia nk vs = vs.map (denoteVal dia nk)
   | [] => rfl
@@ -230,17 +287,20 @@ theorem C12_chars_partial_packet (o : Opts) (cs : List Chunk) (preB postB : List
     (hpost : wfItems o post seen2 = true)
     (hseen2 : ∀ k ∈ normNames o (denoteItems o.dia o.normKey
         [.loop ns (ps ++ [pv ++ List.replicate (ns.length - pv.length) Val.unk])] (denoteItems o.dia o.normKey pre [])), k ∈ seen2) :
-    OneReport o cs CIF_PARTIAL_PACKET
-      (preB ++ [plainBlock bc (pre ++ [.loop ns (ps ++ [pv ++ List.replicate (ns.length - pv.length) Val.unk])] ++ post)] ++ postB) :=
-  items_class_doc H _ CIF_PARTIAL_PACKET (ns.length + szPackets ps + szVals pv + 2)
+    OneReportAt o cs CIF_PARTIAL_PACKET
+      (preB ++ [plainBlock bc (pre ++ [.loop ns (ps ++ [pv ++ List.replicate (ns.length - pv.length) Val.unk])] ++ post)] ++ postB)
+      ((blocksToks preB).length + 1 + ((itemsToks pre).length + (1 + ns.length + (packetsToks ps).length + (valsToks pv).length))) := by
+  refine items_class_doc_at H _ CIF_PARTIAL_PACKET (ns.length + szPackets ps + szVals pv + 2) _
     (by
       rw [Lemmas.WriterChunks.szPackets_toks, Lemmas.WriterChunks.szVals_toks]
       simp only [List.length_cons, List.length_append, List.length_map]; omega)
-    (allPacked_run o pre post _ seen2 H.wfRun hpost (allPacked_loop o ns _ (by simp)))
-    (fun hv rest1 s1 w1 f hw1 hf hfol hF1 =>
-      have hterm := blockFollow_term hfol
-      C12_partial_packet o hv pre post ns ps pv [] seen2 rest1 s1 f w1 [] [] true hw1 H.wfRun (nil_seen o) hwf hfresh hnd hlen hwv
-        hpv hpl hwpv hpost hseen2 (by omega) (items_rest_head post rest1 hterm) (fun _ => hterm) hF1)
+    (by simp only [List.length_cons, List.length_append, List.length_map]; omega)
+    (allPacked_run o pre post _ seen2 H.wfRun hpost (allPacked_loop o ns _ (by simp))) ?_
+  intro hv rest1 s1 w1 f hw1 hf hfol hF1
+  have hterm := blockFollow_term hfol
+  obtain ⟨s2, r, h1, h2, h3, h4, _⟩ := C12_partial_packet_at o hv pre post ns ps pv [] seen2 rest1 s1 f w1 [] [] true hw1 H.wfRun
+    (nil_seen o) hwf hfresh hnd hlen hwv hpv hpl hwpv hpost hseen2 (by omega) (items_rest_head post rest1 hterm) (fun _ => hterm) hF1
+  exact ⟨s2, r, h1, h2, h3, h4⟩
 
 /-- **C12_chars_dup_header_name** — a loop header `ns₁ ++ [n'] ++ ns₂` in which `n'` repeats (normalised comparison, any spelling)
     a name already defined in the block or one of `ns₁`, with complete packets.  One report, CIF_DUP_ITEMNAME; the content is that of
@@ -258,8 +318,9 @@ theorem C12_chars_dup_header_name (o : Opts) (cs : List Chunk) (preB postB : Lis
     (hpost : wfItems o post seen2 = true)
     (hseen2 : ∀ k ∈ normNames o (denoteItems o.dia o.normKey
         (pre ++ [.loop (ns1 ++ ns2) ((p0 :: ps).map (fun p => p.eraseIdx ns1.length))]) []), k ∈ seen2) :
-    OneReport o cs CIF_DUP_ITEMNAME
-      (preB ++ [plainBlock bc (pre ++ [.loop (ns1 ++ ns2) ((p0 :: ps).map (fun p => p.eraseIdx ns1.length))] ++ post)] ++ postB) := by
+    OneReportAt o cs CIF_DUP_ITEMNAME
+      (preB ++ [plainBlock bc (pre ++ [.loop (ns1 ++ ns2) ((p0 :: ps).map (fun p => p.eraseIdx ns1.length))] ++ post)] ++ postB)
+      ((blocksToks preB).length + 1 + ((itemsToks pre).length + (1 + ns1.length))) := by
   have e : ∀ ls, denoteItems o.dia o.normKey [.loop (ns1 ++ ns2) ((p0 :: ps).map (fun p => p.eraseIdx ns1.length))] ls
       = ls ++ [mkLoop (ns1 ++ ns2) ((p0 :: ps).map (fun p => (denoteVals o.dia o.normKey p).eraseIdx ns1.length))] := by
     intro ls
@@ -268,18 +329,19 @@ theorem C12_chars_dup_header_name (o : Opts) (cs : List Chunk) (preB postB : Lis
     apply List.map_congr_left
     intro p _
     simp [denoteVals_eraseIdx]
-  refine items_class_doc H _ CIF_DUP_ITEMNAME (ns1.length + ns2.length + szPackets (p0 :: ps) + 3)
+  refine items_class_doc_at H _ CIF_DUP_ITEMNAME (ns1.length + ns2.length + szPackets (p0 :: ps) + 3) _
     (by
       rw [Lemmas.WriterChunks.szPackets_toks]
       simp only [List.length_cons, List.length_append, List.length_map]; omega)
+    (by simp only [List.length_cons, List.length_append, List.length_map]; omega)
     (allPacked_run o pre post _ seen2 H.wfRun hpost (allPacked_loop o _ _ (by simp))) ?_
   intro hv rest1 s1 w1 f hw1 hf hfol hF1
   have hterm := blockFollow_term hfol
-  have := C12_dup_header_name o hv pre post ns1 ns2 n' p0 ps [] seen2 rest1 s1 f w1 [] [] true hw1 H.wfRun (nil_seen o) hwf hfresh hnd
+  obtain ⟨s2, r, h1, h2, h3, h4, _⟩ := C12_dup_header_name_at o hv pre post ns1 ns2 n' p0 ps [] seen2 rest1 s1 f w1 [] [] true hw1 H.wfRun (nil_seen o) hwf hfresh hnd
     hne hname hdup hlen hwv hpost (by rw [denoteItems_append, e] at hseen2; exact hseen2) (by omega)
     (items_rest_head post rest1 hterm) (fun _ => hterm) hF1
   rw [denoteItems_append, denoteItems_append, e]
-  exact this
+  exact ⟨s2, r, h1, h2, h3, h4⟩
 
 
 /-! ### the empty loop: accepted without packets, pruned when the container ends -/
@@ -331,12 +393,14 @@ theorem C12_chars_empty_loop (o : Opts) (cs : List Chunk) (preB postB : List Blo
     (hpost : wfItems o post seen2 = true)
     (hseen2 : ∀ k ∈ normNames o (denoteItems o.dia o.normKey pre [] ++ [mkLoop ns []]), k ∈ seen2)
     (hnext : ∀ i r, post = i :: r → ∃ ms ps, i = .loop ms ps) :
-    OneReport o cs CIF_EMPTY_LOOP (preB ++ [plainBlock bc (pre ++ post)] ++ postB) := by
-  obtain ⟨r, h, hr⟩ := items_class H (denoteItems o.dia o.normKey post (denoteItems o.dia o.normKey pre [] ++ [mkLoop ns []]))
-    CIF_EMPTY_LOOP (ns.length + 2) (by simp only [List.length_cons, List.length_map]; omega)
-    (fun hv rest1 s1 w1 f hw1 hf hfol hF1 =>
+    OneReportAt o cs CIF_EMPTY_LOOP (preB ++ [plainBlock bc (pre ++ post)] ++ postB)
+      ((blocksToks preB).length + 1 + ((itemsToks pre).length + (1 + ns.length))) := by
+  obtain ⟨r, h, hr, hat⟩ := items_class H (denoteItems o.dia o.normKey post (denoteItems o.dia o.normKey pre [] ++ [mkLoop ns []]))
+    CIF_EMPTY_LOOP (ns.length + 2) (fun s1 r => RepAt o s1 ((itemsToks pre).length + (1 + ns.length)) r)
+    (by simp only [List.length_cons, List.length_map]; omega)
+    (fun hv rest1 s1 w1 f hw1 hf hfol hF1 => by
       have hterm := blockFollow_term hfol
-      C12_empty_loop o hv pre post ns [] seen2 rest1 s1 f w1 [] [] true hw1 H.wfRun (nil_seen o) hns hwf hfresh hnd hpost hseen2
+      obtain ⟨s2, r, h1, h2, h3, h4, _⟩ := C12_empty_loop_at o hv pre post ns [] seen2 rest1 s1 f w1 [] [] true hw1 H.wfRun (nil_seen o) hns hwf hfresh hnd hpost hseen2
         (by omega)
         (by
           cases post with
@@ -349,8 +413,13 @@ theorem C12_chars_empty_loop (o : Opts) (cs : List Chunk) (preB postB : List Blo
             obtain ⟨ms, ps, rfl⟩ := hnext i r0 rfl
             exact ⟨.loopKw, [], ms.map (fun n => (TokType.name, n)) ++ (packetsToks ps ++ (itemsToks r0 ++ rest1)),
               by simp [itemsToks, itemToks], rfl, by decide⟩)
-        (fun _ => hterm) hF1)
-  refine ⟨r, ?_, hr⟩
+        (fun _ => hterm) hF1
+      exact ⟨s2, r, h1, h2, h3, h4⟩)
+  have hline := line_of_block H.toTextOk (by
+    rw [H.hToks]
+    simp only [List.length_append, List.length_cons, List.length_map]
+    omega) hat
+  refine ⟨r, ?_, hr, hline⟩
   have hpk := allPacked_run o pre post [] seen2 H.wfRun hpost (fun _ h => h)
   simp only [List.append_nil] at hpk
   rw [h, denote_plain, denoteItems_append, pruneC_empty_loop]
@@ -575,21 +644,34 @@ theorem feeds_doc {o : Opts} {cs : List Chunk} (H : TextOk o cs) {c : CU} {rest 
 theorem C12_chars_no_block_header (o : Opts) (cs : List Chunk) (e : Elem) (es : List Elem) (bs : List Block)
     (H : TextOk o cs) (hmfd : o.maxFrameDepth ≠ 0) (ht : toks cs = elemsToks (e :: es) ++ blocksToks bs)
     (hwb : wfElems o (e :: es) [] [] = true) (hwbs : wfBlocks o bs [o.norm []] = true) :
-    OneReport o cs CIF_NO_BLOCK_HEADER ({ code := [], body := e :: es } :: bs) := by
+    OneReportAt o cs CIF_NO_BLOCK_HEADER ({ code := [], body := e :: es } :: bs) 0 := by
   obtain ⟨c, rest, hc, hfirst, hbom⟩ := H.first
   have hfu := fuel_doc H.ok
   have hfe := feeds_doc H hc
+  have hS : ({ scan := Scan.init (renderChunks cs), tok := none } : PS) = { scan := Scan.init (c :: rest), tok := none } := by rw [hc]
   rw [ht] at hfu hfe
   rw [hc] at hfu
   have h1 := Lemmas.WriterChunks.szElems_toks (e :: es)
   have h2 := Lemmas.WriterChunks.szBlocks_toks bs
   have h3 := heads_blocks bs
   simp only [List.length_append, heads_append] at hfu
-  obtain ⟨f, hf⟩ : ∃ f, fuelFor (c :: rest) = f + bs.length + 1 := ⟨fuelFor (c :: rest) - bs.length - 1, by omega⟩
-  obtain ⟨r, h, hr⟩ := C12_no_block_header o e es bs _ f { log := [], cif := [] } H.store hmfd rfl hwb hwbs (by omega) (by omega)
-    (by simpa [List.append_assoc] using hfe)
-  rw [← hf] at h
-  exact ⟨r, by rw [hc, parse_of_parseCif o acceptAll c rest _ H.utf hfirst hbom h]; simp [denote], hr⟩
+  obtain ⟨f, hf⟩ : ∃ f, fuelFor (c :: rest) = (f + bs.length) + 1 := ⟨fuelFor (c :: rest) - bs.length - 1, by omega⟩
+  obtain ⟨s1, r, h4, hr, h5, hrep, _⟩ := no_block_header_step_at o H.store hmfd e es _ _ (f + bs.length) { log := [], cif := [] }
+    (by intro x hx; cases hx) hwb (by omega) (blocks_rest_head bs) (by simpa [List.append_assoc] using hfe)
+  obtain ⟨s2, h6⟩ := blocks_structure o H.store hmfd bs [o.norm []] s1 f acceptAll
+    { log := [r], cif := [] ++ [denoteBlock o.dia o.normKey { code := [], body := e :: es }] } hwbs
+    (by
+      intro x hx
+      simp only [List.nil_append, List.mem_singleton] at hx
+      subst hx; simp [denoteBlock, Container.code])
+    (by omega) h5
+  have h7 : blocksLoop o (fuelFor (c :: rest)) { scan := Scan.init (c :: rest), tok := none } acceptAll { log := [], cif := [] }
+      = .ok s2 { log := [r], cif := denoteBlock o.dia o.normKey { code := [], body := e :: es } :: denote o.dia o.normKey bs } := by
+    rw [hf, h4, h6]; simp
+  refine ⟨r, ?_, hr, ?_⟩
+  · rw [hc, parse_of_blocks o acceptAll c rest s2 _ H.utf hfirst hbom h7]; simp [denote]
+  · rw [← hS] at hrep
+    exact repAt_line o cs H.ok H.fit (Nat.zero_le _) hrep
 
 /-- **C12_chars_invalid_blockcode** — a data block whose code is not a valid block code, any well-formed blocks before and
     behind.  One report, CIF_INVALID_BLOCKCODE; the content is that of the document as it stands (the code is used anyway). -/
@@ -717,23 +799,24 @@ theorem ElemHost.fresh' {o : Opts} {cs : List Chunk} {preB postB : List Block} {
     really follow the block -/
 theorem elems_class {o : Opts} {cs : List Chunk} {preB postB : List Block} {bc : Str} {pre post : List Elem} {D : List TokSpec}
     (H : ElemHost o cs preB postB bc pre post D) (fs' : List Container) (ls' : List Loop) (C : Code) (K : Nat)
-    (hK : K ≤ 2 * D.length + 18)
+    (Q : PS → Report → Prop) (hK : K ≤ 2 * D.length + 18)
     (hstep : ∀ (s1 : PS) (w1 : W) (f : Nat), w1.cif = denote o.dia o.normKey preB ++ [.mk bc [] []] →
         szElems pre + szElems post + K + 1 ≤ f →
         Feeds o s1 (elemsToks pre ++ (D ++ (elemsToks post ++ (blocksToks postB ++ [(.end_, [])])))) →
         ∃ s2 r, elemsLoop o (f + post.length + 1 + pre.length) s1 (some [o.norm bc]) true acceptAll w1
             = elemsLoop o f s2 (some [o.norm bc]) true acceptAll
                 { log := r :: w1.log, cif := denote o.dia o.normKey preB ++ [.mk bc fs' ls'] }
-          ∧ r.code = C ∧ Feeds o s2 (blocksToks postB ++ [(.end_, [])])) :
+          ∧ r.code = C ∧ Feeds o s2 (blocksToks postB ++ [(.end_, [])]) ∧ Q s1 r) :
     ∃ r, parse o acceptAll [] (renderChunks cs)
         = { rc := 0, log := [r],
             cif := denote o.dia o.normKey preB ++ pruneC (.mk bc fs' ls') :: denote o.dia o.normKey postB }
-      ∧ r.code = C := by
+      ∧ r.code = C
+      ∧ ∃ s1, At o { scan := Scan.init (renderChunks cs), tok := none } ((blocksToks preB).length + 1) s1 ∧ Q s1 r := by
   obtain ⟨c, rest, hc, hfirst, hbom⟩ := H.first
   have hsz1 := (Lemmas.WriterChunks.szElems_toks pre)
   have hsz2 := (Lemmas.WriterChunks.szElems_toks post)
   refine block_defect_chars o H.store H.mfd H.utf cs c rest preB postB bc (elemsToks pre ++ (D ++ elemsToks post)) fs' ls' C
-    (post.length + 1 + pre.length) (szElems pre + szElems post + K + 1) _ H.ok H.fit hc hfirst hbom H.hToks H.wfPreB H.wfBc H.fresh
+    (post.length + 1 + pre.length) (szElems pre + szElems post + K + 1) _ Q H.ok H.fit hc hfirst hbom H.hToks H.wfPreB H.wfBc H.fresh
     H.wfPostB (fun b hb => List.mem_cons_of_mem _ (List.mem_map.mpr ⟨b, hb, rfl⟩)) List.mem_cons_self
     (by simp only [List.length_append]; omega) ?_
   intro s1 w1 f hw1 hf hF1
@@ -753,7 +836,9 @@ theorem elems_class_doc {o : Opts} {cs : List Chunk} {preB postB : List Block} {
                   cif := denote o.dia o.normKey preB ++ [.mk bc (denoteElems o.dia o.normKey es [] []).1 (denoteElems o.dia o.normKey es [] []).2] }
           ∧ r.code = C ∧ Feeds o s2 (blocksToks postB ++ [(.end_, [])])) :
     OneReport o cs C (preB ++ [{ code := bc, body := es }] ++ postB) := by
-  obtain ⟨r, h, hr⟩ := elems_class H _ _ C K hK hstep
+  obtain ⟨r, h, hr, _⟩ := elems_class H _ _ C K (fun _ _ => True) hK (fun s1 w1 f a b c => by
+    obtain ⟨s2, r, h1, h2, h3⟩ := hstep s1 w1 f a b c
+    exact ⟨s2, r, h1, h2, h3, trivial⟩)
   exact ⟨r, by rw [h, pruneC_packed _ _ _ hpk]; simp [denote, denoteBlock], hr⟩
 
 /-- loops of the block around a frame: none is empty -/
@@ -866,12 +951,13 @@ theorem C12_chars_dup_framecode (o : Opts) (cs : List Chunk) (preB postB : List 
                         (denoteElems o.dia o.normKey pre [] []).2).2 :: denote o.dia o.normKey postB }
       ∧ r.code = CIF_DUP_FRAMECODE := by
   have h4 := Lemmas.WriterChunks.szItems_toks body
-  obtain ⟨r, h, hr⟩ := elems_class H _ _ CIF_DUP_FRAMECODE (szItems body + body.length + 3)
+  obtain ⟨r, h, hr, _⟩ := elems_class H _ _ CIF_DUP_FRAMECODE (szItems body + body.length + 3) (fun _ _ => True)
     (by simp only [List.length_cons, List.length_append, List.length_nil]; omega)
-    (fun s1 w1 f hw1 hf hF1 =>
-      C12_dup_framecode o _ bc H.fresh' H.mfd pre post fc fc0 body [] [] seen2 fseen2 bseen _ s1 f w1 [] fa fb ffs [] fls hw1 H.wfRun
+    (fun s1 w1 f hw1 hf hF1 => by
+      obtain ⟨s2, r, h1, h2, h3⟩ := C12_dup_framecode o _ bc H.fresh' H.mfd pre post fc fc0 body [] [] seen2 fseen2 bseen _ s1 f w1 [] fa fb ffs [] fls hw1 H.wfRun
         (nil_seen o) (by intro c hc; cases hc) hcode hk hsplit ha hb hwb hbseen hpk hpost hseen2 hfseen2 (by omega)
-        (blockFollow_term (blocks_rest_head postB)) hF1)
+        (blockFollow_term (blocks_rest_head postB)) hF1
+      exact ⟨s2, r, h1, h2, h3, trivial⟩)
   refine ⟨r, ?_, hr⟩
   rw [h, pruneC_packed]
   exact allPacked_denoteElems o post seen2 fseen2 _ _ hpost
@@ -911,12 +997,16 @@ theorem exHost : ItemHost C12.opts2 exCs [] [] (a!"a") [] [.item (a!"_y") (.str 
   hToks := by decide
   wfRun := rfl
 
-/-- non-vacuity: a text with a comment and varying whitespace around a name without value -/
+/-- non-vacuity: a text with a comment and varying whitespace around a name without value; the report is `2` tokens into the
+    text (behind `_x`, the following `_y` pending) -/
 theorem C12_chars_missing_value_instance :
-    OneReport C12.opts2 exCs CIF_MISSING_VALUE
-      [plainBlock (a!"a") [.item (a!"_x") .unk, .item (a!"_y") (.str (a!"v w") .squote)]] :=
+    OneReportAt C12.opts2 exCs CIF_MISSING_VALUE
+      [plainBlock (a!"a") [.item (a!"_x") .unk, .item (a!"_y") (.str (a!"v w") .squote)]] 2 :=
   C12_chars_missing_value C12.opts2 exCs [] [] (a!"a") [] _ (a!"_x") [a!"_x"] exHost (by decide) (by simp [normNames, denoteItems])
     (by decide) (by intro k hk; simpa [normNames, denoteItems, putScalar, C12.opts2, C12.lower] using hk)
+
+/-- … i.e. on line 2 (where `_x` ends) or line 4 (where `_y` ends: the comment ends line 2, an empty line follows) of the text -/
+theorem C12_chars_instance_lines : endLine exCs 2 = 2 ∧ endLine exCs 3 = 4 := by decide
 
 end C12Chars
 
